@@ -492,9 +492,10 @@ def load_database(dbpath, rootdir):
 
             entry["file"] = path
 
-            # Include paths may be specified relative to root
+            # Include paths may be specified relative to the directory
+            # the compiler was run in (the root if none was given).
             entry["include_paths"] = [
-                os.path.abspath(os.path.join(rootdir, f))
+                os.path.abspath(os.path.join(filedir, f))
                 for f in entry["include_paths"]
             ]
 
